@@ -410,7 +410,23 @@ class SymInt:
     def __sub__(self, o): return self._bin(o, lambda a, b: a - b)
     def __rsub__(self, o): return self._bin(o, lambda a, b: a - b, True)
     def __mul__(self, o): return self._bin(o, lambda a, b: a * b)
-    def __rmul__(self, o): return self._bin(o, lambda a, b: a * b, True)
+    def __rmul__(self, o):
+        if isinstance(o, list):
+            # python list repetition with a symbolic count
+            from .symlist import SymList
+            items = list(o)
+            m = len(items)
+            if m == 0:
+                return []
+            def get(j, items=items, m=m):
+                r = unwrap_int(j % m) if m > 1 else 0
+                if isinstance(r, int):
+                    return items[r]
+                for i in range(m):
+                    if r == i:
+                        return items[i]
+            return SymList(unwrap_int(self * m), get, "repeat")
+        return self._bin(o, lambda a, b: a * b, True)
 
     def __floordiv__(self, o):
         zo = _zi(o)
